@@ -363,6 +363,8 @@ class Forcing:
         if bb not in self.reach:
             return set()
         avoid = set(avoid)
+        if bb in avoid:
+            return set()                 # the start is itself one of the blocks to be avoided: every path from it has passed through one
         seen = {bb}
         st = [bb]
         while st:
